@@ -1,6 +1,7 @@
 package rules
 
 import (
+	"strconv"
 	"fmt"
 	"go/token"
 	"go/types"
@@ -69,6 +70,11 @@ func runC03(c *core.Ctx) {
 
 	c.Doc("C03.limits", "size-limit comparisons accept the limit itself (encoder/decoder/reader agree)", 8)
 	ruleLimitComparisons(c, "C03.limits")
+
+	// a codec that looks at the concrete source (type assertion, wrapping) behaves
+	// differently from its siblings for some sources: same closed list as C08
+	c.Doc("C03.reader-discipline", "decoders consume their source only through the repository's decoders (no source-dependent paths)", 60)
+	ruleReaderDiscipline(c, newDecoderSet(c), "C03.reader-discipline", nil)
 }
 
 func ruleConstructors(c *core.Ctx, prims map[string]*primInfo) {
@@ -82,6 +88,27 @@ func ruleConstructorsAs(c *core.Ctx, prims map[string]*primInfo, rule string) {
 		o, scalar := scalarOracle[r.Signature]
 		key := "meta/signature." + r.Func
 		if !scalar {
+			// constructors whose reader and Go type are derived from a signature string:
+			// one string for both, and for an object reference the one dynamic values use
+			if r.ReaderSig != "" || r.TypSig != "" {
+				bad := ""
+				want := r.Signature
+				if r.Signature == "o" {
+					want = ""
+					if k, ok := c.Object("type/value", "ObjectReferenceSignature").(*types.Const); ok {
+						want = constString(k)
+					}
+				}
+				switch {
+				case r.ReaderSig == "?" || r.TypSig == "?":
+					bad = "cannot resolve the signature strings the reader and the Go type are derived from"
+				case r.ReaderSig != r.TypSig:
+					bad = fmt.Sprintf("the signature reader is made from %q but the Go type from %q: opaque values of this type are consumed with another layout than the one they are decoded/encoded with", abbrev(r.ReaderSig), abbrev(r.TypSig))
+				case want != "" && r.ReaderSig != want:
+					bad = fmt.Sprintf("reader and Go type are derived from %q, expected %q", abbrev(r.ReaderSig), abbrev(want))
+				}
+				c.Check(bad == "", rule, key+"/derived", r.Pos, "reader and Go type derived from one signature string ("+abbrev(r.ReaderSig)+")", bad)
+			}
 			switch r.Signature {
 			case "s":
 				c.Check(r.ReaderW == -1 && r.GoType == "string" && strings.HasSuffix(r.Marshal, "WriteString") && r.Unmarshal == "ReadString" && r.IDL == "str", rule, key, r.Pos,
@@ -659,4 +686,19 @@ func ruleReaderConstruction(c *core.Ctx) {
 		}
 		c.Check(ok, rule, "meta/signature.ListType.Reader", lr.Pos(), "lists are read with the length-prefixed reader", "ListType.Reader does not build a length-prefixed reader")
 	}
+}
+
+func abbrev(s string) string {
+	if len(s) > 48 {
+		return s[:20] + "…" + s[len(s)-24:]
+	}
+	return s
+}
+
+func constString(k *types.Const) string {
+	s := k.Val().ExactString()
+	if u, err := strconv.Unquote(s); err == nil {
+		return u
+	}
+	return s
 }
